@@ -103,6 +103,18 @@ def rewrites():
     R.append(("Error", "independent field attributes in any textual order", ["struct S { #[error(not(source))] source: E, #[error(source)] b: E }", "struct S { #[error(not(source),)] source: E, #[error(source,)] b: E }"]))
     R.append(("Deref", "mark the field vs ignore the others", ["struct S { #[deref] a: u8, b: u16 }", "struct S { a: u8, #[deref(ignore)] b: u16 }"]))
     R.append(("Index", "mark the field vs ignore the others", ["struct S { #[index] a: Vec<u8>, b: u16 }", "struct S { a: Vec<u8>, #[index(ignore)] b: u16 }"]))
+    # `not(X)` spells out the default where X is off by default: same expansion as no attribute at all
+    for tr, m in (("Mul", "mul"), ("Div", "div"), ("Rem", "rem"), ("Shr", "shr"), ("Shl", "shl")):
+        for d, a in ((tr, m), (tr + "Assign", m + "_assign")):
+            for item in ("struct S(u8);", "struct S { a: u8, b: u16 }", "struct S<T>(T, T);"):
+                R.append((d, "explicit default `not(forward)`", [item, "#[%s(not(forward))] %s" % (a, item), "#[%s(not(forward),)] %s" % (a, item)]))
+    for d, a in (("Deref", "deref"), ("DerefMut", "deref_mut")):
+        R.append((d, "explicit default `not(forward)`", ["struct S(Box<u8>);", "#[%s(not(forward))] struct S(Box<u8>);" % a, "struct S(#[%s(not(forward))] Box<u8>);" % a]))
+        R.append((d, "explicit default `not(forward)` on the marked field", ["struct S { #[%s] a: Box<u8>, b: u8 }" % a, "struct S { #[%s(not(forward))] a: Box<u8>, #[%s(ignore)] b: u8 }" % (a, a)]))
+    for kw in ("source", "backtrace"):
+        R.append(("Error", "explicit default `not(%s)` on a field that would not be selected anyway" % kw,
+                  ["struct S { a: u8, b: u16 }", "struct S { a: u8, #[error(not(%s))] b: u16 }" % kw, "struct S { #[error(not(%s))] a: u8, #[error(not(%s),)] b: u16 }" % (kw, kw)]))
+        R.append(("Error", "explicit default `not(%s)` in a variant" % kw, ["enum E { A { a: u8, b: u16 }, B }", "enum E { A { a: u8, #[error(not(%s))] b: u16 }, B }" % kw]))
     R.append(("From", "#[from] on every wanted variant vs skip on the others", ["enum E { #[from] A(u8), B(u16) }", "enum E { A(u8), #[from(skip)] B(u16) }", "enum E { A(u8), #[from(ignore)] B(u16) }"]))
     return R
 
@@ -407,6 +419,35 @@ def part3(chk, thorough):
              oracle="every accepted sequence uses only documented parameters of that position, none twice (also not as X and not(X)), and `ignore` alone")
 
 
+def part4(chk, thorough):
+    """An attribute that is nobody's business (`#[doc(hidden)]`, `#[allow(dead_code)]`, `#[rustfmt::skip]`) on the item, on every
+    variant and on every field, before and after their own attributes, is the weakest synonymous spelling of all: the outcome must
+    not change.  Run over the cross-property corpus (every derive x supported shapes x documented attribute spellings)."""
+    import c19
+    corpus = c19.corpus_requests(thorough)
+    reqs = []
+    for k, q in enumerate(corpus):
+        for which in ((0, 1, 2) if thorough else (k % 3,)):
+            reqs.append({"derive": q["derive"], "item": q["item"], "foreign": which})
+    res = svc(reqs)
+    n = 0
+    for q, r in zip(reqs, res):
+        if "foreign_same" not in r:
+            continue
+        n += 1
+        chk.count(states=1, transitions=1)
+        if r["foreign_same"]:
+            chk.outcome("unrelated-attributes-ignored")
+            continue
+        chk.outcome("unrelated-attributes-change-outcome")
+        o2 = r.get("foreign_out", {})
+        chk.violation("an unrelated attribute changes the outcome (%s): %s -> %s" % (q["derive"], r["k"], o2.get("k")),
+                      {"derive": q["derive"], "item": q["item"], "attribute": ["#[doc(hidden)]", "#[allow(dead_code)]", "#[rustfmt::skip]"][q["foreign"]]},
+                      "plain: %s | decorated: %s" % ((r.get("out") or r.get("msg") or "")[:600], (o2.get("out") or o2.get("msg") or "")[:600]))
+    chk.part("4_unrelated_attributes", corpus=len(corpus), compared=n, attributes=["#[doc(hidden)]", "#[allow(dead_code)]", "#[rustfmt::skip]"],
+             placement="on the item, and before and after the own attributes of every variant and every field", per_item="one of the three (quick) / all three (thorough)")
+
+
 def run(chk, tier):
     thorough = tier == "thorough"
     # ---------------- Part 1: synonymous rewrites
@@ -479,6 +520,7 @@ def run(chk, tier):
                 chk.outcome("corruption-accepted")
                 chk.violation("silently accepted (rustc too): %s (%s)" % (c.meta["cls"], c.meta["d"]), c.meta["item"], "the program compiled")
     part3(chk, thorough)
+    part4(chk, thorough)
     chk.part("2_corruptions", corruptions=len(C), decided_by_rustc=len(need_rustc),
              classes=sorted({cls.split(" `")[0] for _, cls, _, _ in C})[:40])
     chk.sample({"corruption": C[3][2], "class": C[3][1], "verdict": "rejected"})
